@@ -7,6 +7,7 @@ from corankco.algorithms.parcons.parcons import ParCons
 from corankco.algorithms.bioconsert.bioconsert import BioConsert
 from corankco.algorithms.kwiksort.kwiksortrandom import KwikSortRandom
 from corankco.algorithms.copeland.copeland import CopelandMethod
+from corankco.algorithms.borda.borda import BordaCount
 from corankco.consensus import ConsensusFeature
 
 import corankco.algorithms.parcons.parcons as parcons_module
@@ -34,6 +35,8 @@ class Recorder(RankAggAlgorithm):
 
 
 class ParConsSuite(Suite):
+    scaled_rate = 0.12       # share of the cases where only the partition is computed, under the scheme times a power of two
+    scribbled_rate = 0.1     # share of the cases where the caller scribbled on what the read accessors returned (algos.scribble)
     seasoned_rate = 0.1     # share of the cases run on algorithm objects that have served before (algos.seasoned)
     escalate_cap = 120
     names_rate, past_rate = 0.08, 0.06     # hostile element names / datasets with a past (gen.decorate_cases)
@@ -80,7 +83,11 @@ class ParConsSuite(Suite):
         ds, sc = mk(case["D"], case["s"])
         out = {"D": gen.observe(ds), "U": gen.id_order(ds), "P": groups(OrderedPartition.parcons_partition(ds, sc)), "runs": []}
         n = len(out["U"])
-        for bound, aux in ((80, None), (0, None), (1, KwikSortRandom()), (2, BioConsert()), (3, CopelandMethod())):
+        if case.get("scale_exp") is not None:
+            # the library was handed the scheme times a power of two (algos.mk): only the partition is observed (no solver, no local search:
+            # their own numerical thresholds are not scale-free), and judged against the costs of the unscaled scheme
+            return out
+        for bound, aux in ((80, None), (0, None), (1, KwikSortRandom()), (2, BioConsert()), (3, CopelandMethod()), (2, BordaCount())):
             log = []
             alg = ParCons(auxiliary_algorithm=Recorder(aux if aux is not None else BioConsert(), True, log), bound_for_exact=bound)
             orig = parcons_module._exact_algorithm_for_sub_problems
@@ -94,7 +101,11 @@ class ParConsSuite(Suite):
                                     "flag": bool(cons.necessarily_optimal), "weak": groups(cons.features[ConsensusFeature.WEAK_PARTITIONING]),
                                     "calls": log})
             except Exception as e:
-                out["runs"].append({"bound": bound, "err": type(e).__name__ + ": " + str(e)[:80]})
+                # Borda as auxiliary algorithm refuses most schemes on an incomplete sub-problem: a documented refusal, no run to judge
+                # (C14 owns the refusals); whenever a consensus does come back it is judged like the others
+                if not (isinstance(aux, BordaCount) and type(e).__name__ in ("ScoringSchemeNotHandledException",
+                                                                             "InompleteRankingsIncompatibleWithScoringSchemeException")):
+                    out["runs"].append({"bound": bound, "err": type(e).__name__ + ": " + str(e)[:80]})
             finally:
                 parcons_module._exact_algorithm_for_sub_problems = orig
         return out
